@@ -1,9 +1,9 @@
 package main
 
 import (
-	"go/types"
 	"fmt"
 	"go/token"
+	"go/types"
 
 	"golang.org/x/tools/go/ssa"
 )
@@ -19,7 +19,13 @@ type Event struct {
 	Results  []Value
 	Panicked bool
 	Index    int
-	Heap     map[string]Term // lock / recv events: the heap right after the event; opaque calls: the heap the callee saw (for at(event, e))
+	// loop-summary events: what the iterations already run may have emitted
+	Tokens map[string]bool
+	Wild   bool
+	Dyn    bool
+	ID     int
+	Root   bool            // a loop of the function under verification (not of an inlined callee)
+	Heap   map[string]Term // lock / recv events: the heap right after the event; opaque calls: the heap the callee saw (for at(event, e))
 }
 
 type deferred struct {
